@@ -332,6 +332,15 @@ impl Interner {
         COMMON_STRINGS_UTF8.is_empty() && self.utf16_interner.is_empty()
     }
 
+    /// Verification hook: the dynamically interned strings, as UTF-16, in interning order.
+    #[cfg(boa_verif)]
+    #[must_use]
+    pub fn verif_strings(&self) -> Vec<Vec<u16>> {
+        (0..self.utf16_interner.len())
+            .filter_map(|i| self.utf16_interner.index(i).map(<[u16]>::to_vec))
+            .collect()
+    }
+
     /// Returns the symbol for the given string if any.
     ///
     /// Can be used to query if a string has already been interned without interning.
